@@ -273,6 +273,9 @@ def nan_tolerant_equal(a, b):
 
 
 # --------------------------------------------------------------------------- impl-side oracle
+BOUNDARY = {}      # samples that attain / pass the open end of a half-open support by rounding
+
+
 def parse_line(line):
     w = line.split()
     bar = w.index("|")
@@ -333,10 +336,15 @@ def oracle_one(line, out):
         tol = 0.0 if op == "uniform" else 4e-16 * hi      # exp/log/div rounding at the closed ends
         if not (lo - tol <= x <= hi + tol):
             return ("oracle:%s:support" % op, "sample %r outside [%r, %r]" % (x, lo, hi))
+        if lo < hi and (x >= b if a < b else x <= b):
+            BOUNDARY[op + ":open-end-attained"] = BOUNDARY.get(op + ":open-end-attained", 0) + 1
     elif op == "radial":
         x, r = fl(vals[0]), fl(pw[0])
-        if not (0 <= x <= r):
+        # glibc cbrt(1 - 2^-52) = 1 + 2^-52: the radius can be exceeded by an ulp or two (rounding)
+        if not (0 <= x <= r * (1 + 4e-16)):
             return ("oracle:radial:support", "sample %r outside [0, %r]" % (x, r))
+        if x >= r:
+            BOUNDARY["radial>=R"] = BOUNDARY.get("radial>=R", 0) + 1
     elif op == "iso":
         v = [fl(t) for t in vals]
         n2 = v[0] * v[0] + v[1] * v[1] + v[2] * v[2]
@@ -688,6 +696,7 @@ def run(ctx):
         "op_mix": dict(sorted(kinds.items())), "script_exhausted": exhausted,
         "corpus_lines": n_corpus, "directed_lines": n_directed,
         "diverging_ops": len(diverged), "oracle_keys": sorted(seen),
+        "open_end_attained_by_rounding": dict(sorted(BOUNDARY.items())),
         "statistical_test_min_p": st_results, "statistical_samples": st_n,
         "samples": [lines[n_corpus + n_directed], lines[n_corpus + n_directed + 1], lines[-1]],
         "correspondence_broken": broken,
